@@ -41,6 +41,9 @@ def gen_knobs(rng, profile=None):
         "sub_in_base": rng.random() < 0.3,
         "subclass_values": True,
         "schema_omit": True,
+        "field_ser": rng.random() < 0.3,
+        "orjson_opts": rng.random() < 0.3,
+        "generic_base": rng.random() < 0.4,
         "inherit": rng.random() < 0.5,
         "n_outer": rng.randint(1, 3),
         "n_leaf": rng.randint(1, 2),
@@ -150,6 +153,9 @@ class FamilyBuilder:
                     cfg[o] = True
             if r.random() < 0.1:
                 cfg["date"] = r.choice(["slash", "ord"])
+        if kn.get("orjson_opts") and r.random() < 0.5:
+            cfg["orjson_options"] = r.choice([["OPT_SORT_KEYS"], ["OPT_INDENT_2"],
+                                              ["OPT_INDENT_2", "OPT_SORT_KEYS"]])
         if (kn["cfg_dialect"] and self.dialects and "ADD_DIALECT_SUPPORT" not in cgo
                 and r.random() < 0.4):
             cfg["dialect"] = r.choice(self.dialects)["name"]
@@ -169,6 +175,10 @@ class FamilyBuilder:
                 seen_default = True
             if self.kn["cfg_opts"] and r.random() < self.kn.get("p_alias", 0.15):
                 f["alias"] = f["n"] + "_al"
+            if t == ["date"] and self.kn.get("field_ser") and r.random() < 0.3:
+                f["ser"] = r.choice(["slash", "ord"])
+                if "d" in f:
+                    f["d"] = self.scalar_value(t)
             out.append(f)
         return out
 
@@ -641,6 +651,9 @@ def to_input(fam, v, ctx, discr=None):
             d2 = fd[2] if fd[0] == "ann" else None
             if fd[0] in ("opt", "list", "dict") and fd[1][0] == "ann":
                 d2 = fd[1][2]
+            if f.get("ser") and x[0] == "d":
+                doc[key] = render_date(x[1], f["ser"])
+                continue
             doc[key] = _to_input_typed(fam, x, sub, d2)
         if discr is None:
             for anc in fam.mro(cname)[1:]:
